@@ -192,3 +192,36 @@ MANIFEST_TEXT["C08"] = {
     "design_ref": "DESIGN.md §6 C08",
     "text": "Exhaustive over all token lists up to length 4/5 over 18 shapes; exploration beyond.",
     "note": "Trusted base: reference classifier (30 lines), harness."}
+
+PLANS["C17"] = {
+    "level": "exploration",
+    "rule": "every one of the 1,112,031 scalar values >= U+0020 except U+007F: (a) encode_utf8, char_pop_front, char_count, char_byte_index, common_prefix_len of the real crate against core::char / core::str, alone and next to neighbours of every encoded length (\"\", a, é, €, 𐍈 on both sides); "
+            "(b) a mini-session through a real Cli per scalar: typed between two neighbours, echo bytes compared, Left/Right over it, Backspace, re-typed inside the line, submitted (handler tokens), recalled with Up (byte for byte), then used as command name, value, short option and value after `--`; "
+            "(c) `ba -<c>` on a derived set so that the unexpected-option error line renders the scalar. quick: two neighbour combinations alternating; thorough: eight combinations per scalar. distinct = scalars (disjoint by construction)",
+    "assumptions": ["expected handler tokens come from the reference tokenizer/classifier, so blank, quote, dash and h behave as C07/C08/C12 say"],
+    "exhaustive": {"quick": True, "thorough": True},
+    "exhaustive_note": {"quick": "all 1,112,031 scalar values", "thorough": "all 1,112,031 scalar values x 8 neighbour combinations"},
+    "min_counts": {"quick": {"c17.scalars": 1112031, "c17.cli_mini_sessions": 1112031}, "thorough": {"c17.scalars": 1112031, "c17.cli_mini_sessions": 8000000}},
+    "stages": [{"variant": "dbg", "workload": "C17"}],
+}
+MANIFEST_TEXT["C17"] = {
+    "technique": "runtime monitoring over an exhaustively enumerated input space: the crate's UTF-8 helpers against core, and a monitored Cli mini-session per scalar value",
+    "design_ref": "DESIGN.md §6 C17",
+    "text": "Exhaustive over all scalar values for the pure helpers and for the typed/echoed/edited/submitted/recalled/option-use mini-session.",
+    "note": "Trusted base: core::char / core::str as the Unicode definition; reference tokenizer/classifier; harness."}
+
+# closures as extra stages of C05 and C10
+PLANS["C05"]["stages"] += [{"variant": "dbg", "workload": "C05-closure", "shards": 15}, {"variant": "dbg", "workload": "C05-closure-cli", "shards": 11}]
+PLANS["C05"]["exhaustive"] = {"quick": False, "thorough": False}
+PLANS["C05"]["exhaustive_note"] = {
+    "quick": "closure stages only: every reachable (line, cursor) state of the real Editor for capacities 0..=10 over {a, é, €, 𐍈} x {insert x4, backspace, left, right}; the same through Cli::process_byte for capacities 0..=7",
+    "thorough": "closure stages only: capacities 0..=14 on the Editor, 0..=10 through Cli::process_byte"}
+PLANS["C05"]["min_counts"]["quick"].update({"c05.closure.states": 9900, "c05.closure_cli.states": 970})
+PLANS["C05"]["min_counts"]["thorough"].update({"c05.closure.states": 190000, "c05.closure_cli.states": 9000})
+PLANS["C10"]["stages"] += [{"variant": "dbg", "workload": "C10-closure", "shards": 21}]
+PLANS["C10"]["exhaustive"] = {"quick": False, "thorough": False}
+PLANS["C10"]["exhaustive_note"] = {
+    "quick": "closure stage only: every reachable state (stored bytes, selected entry) of the real History for budgets 0..=14 over pushes of {\"\", a, b, ab, é, abc, abcd} + next_older + next_newer",
+    "thorough": "closure stage only: budgets 0..=20 over pushes of {\"\", a, b, ab, é, abc, abcd, ba, €} + next_older + next_newer"}
+PLANS["C10"]["min_counts"]["quick"].update({"c10.closure.states": 8400})
+PLANS["C10"]["min_counts"]["thorough"].update({"c10.closure.states": 400000})
